@@ -5,7 +5,7 @@ C18 decided: weight validation, the closed forms new_cum / new_wt_max / new_rho,
 (n, cumulative weight, maximum weight, smaller k), smaller-into-larger orientation, sample assembly.
 Not decided for either: conservation of total weight as arithmetic, unbiasedness / inclusion probabilities, the downsampling case
 analysis."""
-from astu import C, ctxt, gt_pair, eq_const, reach, reach_txt, ctext, strip, strip_all, walk, walkp, txt, short, is_this_field, stmts_of, always_throws, functions_by, local_decls
+from astu import walkp, C, ctxt, gt_pair, eq_const, reach, reach_txt, ctext, strip, strip_all, walk, walkp, txt, short, is_this_field, stmts_of, always_throws, functions_by, local_decls
 from vlib.core import ob
 
 
@@ -314,4 +314,59 @@ def ebpps(facts):
         ok = any("result_size=(data_.size()+(include_partial?1:0))" in x.replace("static_cast<uint32_t>", "") or "result_size=" in x and "include_partial?1:0" in x for x in t) and any(x.startswith("copy(data_.begin(),data_.end(),back_inserter(result))") for x in t) and "if include_partial" in [x.replace("if", "if ") for x in t] + t or any(x == "ifinclude_partial" for x in t)
         ok = ok and any(("include_partial=" + C("(next_double()<c_frac)")) in x for x in t)
         out.append(ob("ebpps.sample", "ebpps_sample::get_sample:assembly", fn["pat"], "discharged" if ok else "violated", "the sample is every full item plus the partial item with probability frac(c): floor(c) or ceil(c) items, all from the input" if ok else "sample assembly changed: %s" % t, fn["qname"]))
+    return out
+
+
+def partial_shuffle(facts):
+    """a partial Fisher-Yates pass (position i swapped with a uniformly chosen one of the `len - i` positions not yet fixed) adds
+    the random offset to the CURRENT position: `i + random(len - i)`, or `it + random(len - i)` with `it` stepped together with i.
+    An offset taken from the start of the array picks the partner among the first `len - i` slots, most of them already fixed: the
+    surviving subset is no longer uniform."""
+    from astu import induction_locals
+    fns = functions_by(facts, ["sampling"])
+    out = []
+    n_sites = 0
+    for pat, fn in sorted(fns.items()):
+        if fn.get("body") is None:
+            continue
+        ind = induction_locals(fn)
+        idx = [0]
+
+        def v(n, ps):
+            if not (n.get("k") == "Call" and (n.get("cname") or "") in ("random_idx", "next_int") and len(n.get("args", [])) == 1):
+                return
+            a = strip_all(n["args"][0])
+            if not (a.get("k") == "Bin" and a.get("op") == "-" and strip_all(a["r"]).get("k") == "Ref" and strip_all(a["r"]).get("d") in ind):
+                return
+            i_d = strip_all(a["r"])["d"]
+            loops = [p for p in ps if p.get("k") in ("For", "While", "Do")]
+            if not loops:
+                return
+            L = loops[-1]
+            # cursors stepped in the loop header / body together with i
+            stepped = set()
+            walk([L.get("inc") or {}, L.get("b") or {}], lambda x: stepped.add(strip_all(x.get("e") or (x.get("args") or [{}])[0]).get("d")) if x.get("k") in ("Un", "OpCall") and x.get("op") == "++" else None)
+            key = "%s:partial-shuffle#%d" % (short(fn["patq"]), idx[0])
+            idx[0] += 1
+            ok = False
+            child = n
+            for p in reversed(ps):
+                if p.get("k") in ("Cast", "Paren", "Construct"):
+                    child = p
+                    continue
+                if (p.get("k") == "Bin" and p.get("op") == "+") or (p.get("k") == "OpCall" and p.get("op") == "+"):
+                    others = [x for x in ((p.get("l"), p.get("r")) if p.get("k") == "Bin" else tuple(p.get("args", []))) if x is not child]
+                    for o in others:
+                        refs = []
+                        walk(o, lambda x: refs.append(x.get("d")) if x.get("k") == "Ref" else None)
+                        calls = []
+                        walk(o, lambda x: calls.append(x) if x.get("k") == "Call" else None)
+                        if (i_d in refs or any(r in stepped for r in refs)) and not calls:
+                            ok = True
+                break
+            if ok:
+                out.append(ob("sampling.shuffle", key, n.get("loc", fn["pat"]), "discharged", "the partner of position i is i + random(len - i)", fn["qname"]))
+            else:
+                out.append(ob("sampling.shuffle", key, n.get("loc", fn["pat"]), "violated", "random(%s) is not added to the current position: the swap partner is drawn from the first `len - i` slots instead of the positions not yet fixed, so the selected subset is not uniform (inclusion frequencies are biased)" % txt(a), fn["qname"]))
+        walkp(fn["body"], v)
     return out
